@@ -62,7 +62,17 @@ impl Model for TmsM {
         };
         match l["op"].as_str().unwrap() {
             "explicit" => {
-                let h = self.e.insert_explicit("F".to_string(), self.data());
+                // an explicit fact: through insert_explicit, plain insert, or the template path (the three ways the engine offers)
+                let h = match l["via"].as_str().unwrap_or("explicit") {
+                    "insert" => self.e.insert("F".to_string(), self.data()),
+                    "template" => {
+                        if self.e.templates().get("F").is_none() {
+                            self.e.templates_mut().register(rust_rule_engine::rete::template::TemplateBuilder::new("F").integer_field("n").build());
+                        }
+                        self.e.insert_with_template("F", self.data()).expect("template insert")
+                    }
+                    _ => self.e.insert_explicit("F".to_string(), self.data()),
+                };
                 self.note(h);
             }
             "logical" => {
